@@ -212,6 +212,76 @@ fn check(c: &Case, ctx: &Ctx, via_cli: bool) -> Outcome {
     }
 }
 
+// ---- the same tables reached through FASTA files and `ska build --single-strand`
+
+fn check_fasta(c: &Case, ctx: &Ctx) -> Outcome {
+    let mut t = c.t.table();
+    let n = t.nsamples();
+    let (k, h) = (c.t.k, (c.t.k - 1) / 2);
+    // every sample needs at least one k-mer, otherwise ska build refuses it
+    for j in 0..n {
+        if t.rows.values().all(|r| r[j] == b'-') {
+            if let Some(r) = t.rows.values_mut().next() {
+                r[j] = b'A';
+            }
+        }
+    }
+    if t.rows.len() > 24 {
+        let keep: Vec<Vec<u8>> = t.rows.keys().take(24).cloned().collect();
+        t.rows.retain(|a, _| keep.contains(a));
+        for j in 0..n {
+            if t.rows.values().all(|r| r[j] == b'-') {
+                if let Some(r) = t.rows.values_mut().next() {
+                    r[j] = b'C';
+                }
+            }
+        }
+    }
+    let samples: Vec<Sample> = (0..n)
+        .map(|j| {
+            let mut recs = Vec::new();
+            for (arms, syms) in &t.rows {
+                if let Some(m) = model::mask_of_code(syms[j]) {
+                    for b in model::BASES {
+                        if m & model::base_mask(b) != 0 {
+                            let mut r = arms[..h].to_vec();
+                            r.push(b);
+                            r.extend_from_slice(&arms[h..]);
+                            recs.push(r);
+                        }
+                    }
+                }
+            }
+            (t.names[j].clone(), recs)
+        })
+        .collect();
+    let dir = ctx.case_dir();
+    let r: Result<(usize, usize), Outcome> = (|| {
+        must_ok(&build(ctx, &dir, "x", &samples, k, false, 1), "ska build --single-strand")?;
+        let got = nk(ctx, &dir, "x.skf")?;
+        model::compare_nk(&got, &t, k, false, Some(k_bits_for(k))).map_err(|m| Outcome::Fail(format!("table built from the FASTA records differs from the intended table: {m}")))?;
+        let mut args: Vec<String> = vec!["align".into()];
+        args.extend(align_args(&c.flags, n));
+        args.push("x.skf".into());
+        let argv: Vec<&str> = args.iter().map(|s| s.as_str()).collect();
+        let o = run_ska(ctx, &dir, &argv);
+        must_ok(&o, &format!("ska {}", args.join(" ")))?;
+        compare_align(&model::parse_fasta(&o.out_str()), &t, &spec(&c.flags, n)).map_err(|m| Outcome::Fail(format!("flags {:?} (threshold {}): {m}", c.flags, spec(&c.flags, n).min_count)))
+    })();
+    ctx.done(&dir);
+    match r {
+        Err(Outcome::Fail(m)) => Outcome::Fail(format!("k={k} names={:?} rows={:?}: {m}", t.names, t.rows.values().map(|r| lossy(r)).collect::<Vec<_>>())),
+        Err(o) => o,
+        Ok((kept, masked)) => {
+            let removed = t.rows.len() - kept;
+            let mut cl = vec![];
+            if t.rows.values().flatten().any(|b| model::sym_is_ambig(*b)) { cl.push("ambiguity_codes_through_build"); }
+            if k >= 33 { cl.push("128bit"); }
+            pass((removed > 0 && kept > 0) || (masked > 0 && kept > 0), key_of(&(&c.flags, &t.names, t.rows.values().collect::<Vec<_>>(), "fasta")), cl)
+        }
+    }
+}
+
 const RULE: &str = "generated: arbitrary symbol tables (1-12 samples, 1-60 rows over ACGT, 11 ambiguity codes and '-', per-case densities, constant and constant-plus-gap rows, each row >=1 non-gap) built through the public API; 4 filters x ambig-as-missing x ambig-mask x no-gap-only-sites; min-freq in {0,1,(j-1/2)/n,m/8}; plus a second, stricter setting. Oracle: multiset of emitted columns == model filter (threshold max(1,ceil(f n))), names in order, equal lengths; stricter output is a sub-multiset of the laxer. Non-trivial: the filter removes >=1 row and keeps >=1, or masks >=1 symbol in a kept row; distinct by (flags, table).";
 
 fn show(c: &Case) -> serde_json::Value {
@@ -223,6 +293,7 @@ fn stages(tier: Tier) -> Vec<Box<dyn Stage>> {
     vec![
         gen_stage_show("inproc", RULE, tier.pick(24_000, 400_000), 1500, case_strategy, |c, ctx| check(c, ctx, false), show),
         gen_stage_show("cli", RULE, tier.pick(1200, 16_000), 200, case_strategy, |c, ctx| check(c, ctx, true), show),
+        gen_stage_show("built_from_fasta", "the same generated tables (at most 24 rows) reached through FASTA: for every cell one record L.x.R per base x of the cell's code set, ska build --single-strand; the built table must equal the intended one (nk --full-info) and ska align with the generated flags must emit the model's columns. Non-trivial as above.", tier.pick(800, 10_000), 150, case_strategy, check_fasta, show),
     ]
 }
 
@@ -233,7 +304,7 @@ pub fn def() -> PropDef {
         assumptions: &[
             "min-freq values are chosen so that ceil(f*n) is not affected by floating-point noise (DESIGN §7)",
             "under --no-gap-only-sites the gap is ignored for no-const and for no-ambig-or-const (CLI help text)",
-            "tables are injected through MergeSkaDict::build_from_array (public API); the FASTA route is covered by C03/C10",
+            "tables are injected through MergeSkaDict::build_from_array (public API) or, in the built_from_fasta stage, built from FASTA records (one per cell base, single-strand)",
         ],
         stages,
         post: None,
